@@ -19,7 +19,7 @@ N_IN = 18
 
 
 class RayEval(poly.PathEval):
-    PURE_CALLS = ("sin", "cos", "sqrt", "atan2", "atan", "tan", "exp", "log", "llvm.sin", "llvm.cos", "llvm.sqrt", "llvm.exp", "llvm.log", "sinf", "cosf", "sqrtf", "atan2f")
+    PURE_CALLS = ("sin", "cos", "sqrt", "atan2", "atan", "tan", "exp", "log", "acos", "asin", "llvm.sin", "llvm.cos", "llvm.sqrt", "llvm.exp", "llvm.log", "sinf", "cosf", "sqrtf", "atan2f")
 
     def __init__(self, ff, cell_var, inputs, switch_max=1e-3, max_paths=64):
         super().__init__(ff, cell_var, None, max_paths)
@@ -114,6 +114,10 @@ class RayEval(poly.PathEval):
                 return args[0].tan()
             if n == "atan":
                 return args[0].atan()
+            if n == "acos":
+                return args[0].acos()
+            if n == "asin":
+                return args[0].asin()
             if n == "sqrt":
                 return args[0].sqrt()
             if n == "exp":
